@@ -19,6 +19,7 @@ class Hooks:
         self.used_finalized = 0
         self.interrupted_calls = 0
         self.stream_seeks = []     # (offset, whence) handed to an INDEFINITE stream
+        self.on_render = None      # callable() invoked from inside _render_ (once, then reset)
 
 
 def frame_output(frame, size, char, duration):
@@ -76,6 +77,9 @@ def make(ti_renderable, hooks):
             if fin:
                 hooks.used_finalized += 1
             k = hooks.kernel
+            if hooks.on_render is not None:
+                cb, hooks.on_render = hooks.on_render, None
+                cb()
             if k is not None:
                 k.seam("render", rd.frame_offset)
             char = render_args[SimRenderable].char
